@@ -130,7 +130,7 @@ let utable : (byte list * (n * n) list) list ref = ref []
 let split_on_bar s = String.split_on_char '|' s
 let kv s = match String.index_opt s '=' with Some i -> (String.sub s 0 i, String.sub s (i + 1) (String.length s - i - 1)) | None -> (s, "")
 
-let why_name = function 0 -> "in-H" | 1 -> "C02-shadow-builtin" | 2 -> "C02-ws-nonatomic" | 3 -> "C02-node-tag" | _ -> "C02-dirty-atomic-rep"
+let why_name = function 0 -> "in-H" | 1 -> "C02-shadow-builtin(fixed: unreachable)" | 2 -> "C02-ws-nonatomic" | 3 -> "C02-node-tag" | _ -> "C02-dirty-atomic-rep"
 
 let h_counts = Array.make 5 0
 let classify extras og = let k = int_of_nat (why_not_H og extras) in h_counts.(min k 4) <- h_counts.(min k 4) + 1; k
